@@ -10,7 +10,8 @@ import json, os, subprocess, sys, shutil
 
 ROOT = os.path.dirname(os.path.dirname(os.path.abspath(__file__)))
 WT = os.environ.get("SEED_WT", "/tmp/wt/seedrun")
-CACHE = "/tmp/vcache_seedrun"
+CACHE = os.environ.get("SEED_CACHE", "/tmp/vcache_seedrun")
+EVID = os.environ.get("SEED_EVIDENCE", "/tmp/seed_evidence")
 
 
 def sh(*a, **kw):
@@ -48,7 +49,7 @@ def main():
         for p in props:
             # evidence must not be clobbered: run in a scratch copy of evidence dir
             rr = subprocess.run([os.path.join(ROOT, "check"), p], capture_output=True, text=True,
-                                env=dict(env, VERIF_EVIDENCE_DIR="/tmp/seed_evidence"))
+                                env=dict(env, VERIF_EVIDENCE_DIR=EVID))
             lines = [l for l in rr.stdout.splitlines() if l.startswith("  violated:") or l.startswith("ANALYSIS-ERROR")]
             hits[p] = {"exit": rr.returncode, "reports": lines[:6]}
         sh("git", "-C", WT, "checkout", "-q", "--", ".")
@@ -67,13 +68,13 @@ def main():
         for p, h in hits.items():
             if h["exit"] == 2:
                 print("       ANALYSIS-ERROR in", p, h["reports"][:1])
-    rp = os.path.join(ROOT, "seeded", "RESULTS.json")
+    rp = os.environ.get("SEED_RESULTS") or os.path.join(ROOT, "seeded", "RESULTS.json")
     merged = {}
     if os.path.exists(rp) and args:
         merged = json.load(open(rp))
     merged.update(results)
     json.dump(merged, open(rp, "w"), indent=1, sort_keys=True)
-    shutil.rmtree("/tmp/seed_evidence", ignore_errors=True)
+    shutil.rmtree(EVID, ignore_errors=True)
     return 0
 
 
